@@ -77,6 +77,16 @@ theorem C18_sqlite_open_partial (fn : Str) (hv : validStr fn = true)
   · have : fn ≠ sqliteOpenMemoryPath := hx
     simp [sqliteOpen, hm, this]
 
+/-- from constructor to constructor: `SQLiteConnection(fn)` keeps the name (the extracted `__init__` stores the
+    argument as given), reports a URI, and the connection `_connectionFromParams` constructs from that URI has the
+    file name `fn` again — for every absolute name, in normal form or not (`/./`, `//`, `..`), and `:memory:`. -/
+theorem C18_sqlite_constructed_roundtrip (fn : Str) (hv : validStr fn = true)
+    (hd : fn = memoryName ∨ startsWith [47] fn = true) (hx : fn ≠ slashMemory) :
+    ∃ u p f, sqliteNew fn = some fn ∧ sqliteUri fn = .ok u ∧ parseURI u = .ok p ∧ sqliteOpen p = some f ∧
+      sqliteNew f = some fn := by
+  obtain ⟨u, p, hu, hp, ho⟩ := C18_sqlite_open_partial fn hv hd hx
+  exact ⟨u, p, fn, rfl, hu, hp, ho, rfl⟩
+
 /-- the full statement ("every absolute path") is false of the code: the file `/:memory:` reports a
     URI that opens the in-memory database. -/
 theorem C18_sqlite_open_full_FALSE :
